@@ -22,6 +22,7 @@ var c04Operands = []string{
 	"nil", "1", `"s"`, ":k", "x", "unbound", "&", "()", "[]", "{}", "(x)", "[x 1]", "[x]", "[1 2]", "[&]", "[& 1]", "[a & b]",
 	"(catch)", "(catch e)", "(catch 1 2)", "(catch (a) 2)", "(catch & 1)", "(finally)", "(unquote)", "(splice-unquote)", "((splice-unquote))",
 	"(fn [a] a)", "(catch e e)", "(unquote 1 2)", "[(splice-unquote)]", "(finally (throw 1))", "(throw 2)", "(() 1)", "(list (list) 1)",
+	"[catch e 2]", "[finally 2]", "[catch]", "[unquote 1]", // clause and template heads in a vector: plain data
 }
 
 type c04rig struct {
